@@ -110,7 +110,30 @@ func execRun(t *testing.T, prop string, sc *Scenario, seed uint64, vals []uint32
 		k := simkit.NewKernel(tape)
 		rc := &RunCtx{T: t, Seed: seed, K: k, Tier: tier}
 
-		res = sc.Run(rc)
+		func() {
+			// a panic on the scheduler goroutine (harness bug, or repository code called inline by an oracle)
+			// must not escape the bubble: it would kill the process. Classify it, then let the bubble end.
+			defer func() {
+				if r := recover(); r != nil {
+					stack := string(debug.Stack())
+					v := &simkit.Violation{Property: "HARNESS", Oracle: "panic", Detail: fmt.Sprintf("%v\n%s", r, stack), Fingerprint: "HARNESS/panic"}
+
+					if panicInRepo(stack) {
+						v = &simkit.Violation{Property: prop, Oracle: "panic", Detail: fmt.Sprintf("repository code panicked: %v\n%s", r, stack), Fingerprint: prop + "/panic"}
+					}
+
+					k.Tr.Logf("VIOLATION %s", simkit.FirstLine(v.Error()))
+					res = &RunResult{Viol: v}
+
+					func() {
+						defer func() { _ = recover() }()
+						k.Drain(k.Cleanup)
+					}()
+				}
+			}()
+
+			res = sc.Run(rc)
+		}()
 		res.Seed = seed
 		res.Scenario = sc.Name
 		res.Tape = tape.Rec
